@@ -700,7 +700,7 @@ class App:
         # across it with rate sensitivity), with features on the scale of the distance to the switch.  For each
         # point take the LARGEST step h <= 2e-4 (least rounding in the second difference) whose stencil
         #   (a) stays on one side of the switch with margin, and
-        #   (b) spans less than a third of its distance to the switch (truncation ~ (span/distance)^8),
+        #   (b) spans less than a tenth of its distance to the switch (truncation ~ (span/distance)^8; a third was measured to leave 1e-7 relative error),
         # halving from 2e-4; points for which no such step exists down to 2e-4/2^12 are skipped and counted.
         hs = np.full(npts, 2e-4)
         use = np.ones(npts, dtype=bool)
@@ -715,7 +715,7 @@ class App:
                 for _ in range(13):
                     fs = np.array([self.ref.yield_fn_trial(Hs[i] + o * h * D[i], st[i]) for o in OFF])
                     one_side = bool(np.all(fs > margin) or np.all(fs < -margin))
-                    if one_side and np.min(np.abs(fs)) >= 3.0 * (np.max(fs) - np.min(fs)):
+                    if one_side and np.min(np.abs(fs)) >= 10.0 * (np.max(fs) - np.min(fs)):
                         ok = True
                         break
                     h *= 0.5
